@@ -268,6 +268,12 @@ func (mc *monitoredConn) notify(state connectivity.State) {
 	}
 	// Inform all multiendpoints.
 	mc.gme.mu.RLock()
+	if mc.gme.pools[mc.endpoint] != mc {
+		// This pool has been removed (its last report, SHUTDOWN, may arrive after a new pool for
+		// the same endpoint was dialed): it must not speak for the endpoint any more.
+		mc.gme.mu.RUnlock()
+		return
+	}
 	for _, me := range mc.gme.mes {
 		me.SetEndpointAvailability(mc.endpoint, state == connectivity.Ready)
 	}
